@@ -152,9 +152,6 @@ private:
         return etl::move(_impl).get_impl(ic);
     }
 
-    template <etl::size_t I>
-    auto get_type(etl::index_constant<I> ic) -> decltype(_impl.get_type(ic));
-
 public:
     // No. 1
     explicit(not(is_implicit_default_constructible_v<Ts> && ...)) constexpr tuple()
@@ -186,7 +183,7 @@ public:
 template <etl::size_t I, typename... Ts>
 struct tuple_element<I, tuple<Ts...>> {
     static_assert(I < sizeof...(Ts));
-    using type = decltype(declval<tuple<Ts...>>().get_type(etl::index_v<I>));
+    using type = decltype(declval<typename tuple<Ts...>::impl_t>().get_type(etl::index_v<I>));
 };
 
 template <typename... Ts>
